@@ -19,118 +19,16 @@ pub const ASSUMPTIONS: &[&str] = &[
     "children of every node are reached through Boxed (dyn Parser); the statically typed catalogue (C01 sub-check 'static') covers non-boxed monomorphisations for ~40 templates only",
 ];
 
-fn differential<'s, I: Kind<'s> + Clone>(
-    sub: &str,
-    g: &G,
-    toks: &[char],
-    mk: &dyn Fn() -> I,
-    sm: &SpanMap,
-    base: usize,
-    r_plain: &RefOut,
-    r_obs: &RefOut,
-    l: &mut Local,
-) -> CaseRes {
-    let case = || Case::new(ID, sub, g, toks);
-    macro_rules! bail {
-        ($sig:expr, $($a:tt)*) => {
-            return fail(case, $sig, format!($($a)*))
-        };
-    }
-    // plain build, Rich
-    let p = build::<I, chumsky::error::Rich<'s, I::Tok, I::Spn>>(g, false);
-    let o = run_parse(&p, mk());
-    l.evals += 1;
-    if let Some(m) = &o.panic {
-        bail!("C01/panic", "parse panicked: {}", m);
-    }
-    let acc = is_clean_accept(&o);
-    if acc != r_plain.accepted {
-        bail!(
-            "C01/accept-parse",
-            "parse {} the input but the PEG reading {} it (impl output {:?}, errors {:?}; reference prefix {:?})",
-            if acc { "accepts" } else { "rejects" },
-            if r_plain.accepted { "accepts" } else { "rejects" },
-            o.out,
-            o.errs,
-            r_plain.prefix
-        );
-    }
-    if !acc && (o.has_output || o.errs.is_empty()) {
-        bail!("C01/result-shape", "rejected input: has_output={} errors={:?}", o.has_output, o.errs);
-    }
-    if acc {
-        let rv = &r_plain.prefix.as_ref().unwrap().0;
-        if let Err(m) = cmp_val(rv, o.out.as_ref().unwrap(), sm, base) {
-            bail!("C01/value", "output differs from the PEG reading: {} (impl {:?}, reference {:?})", m, o.out, rv);
-        }
-    }
-    let c = run_check(&p, mk());
-    l.evals += 1;
-    if let Some(m) = &c.panic {
-        bail!("C01/panic", "check panicked: {}", m);
-    }
-    if is_clean_accept(&c) != r_plain.accepted {
-        bail!("C01/accept-check", "check {} but the PEG reading {}", c.has_output, r_plain.accepted);
-    }
-    // zero-sized error type: separate fast paths in the failure bookkeeping
-    let pe = build::<I, EmptyErr>(g, false);
-    let oe = run_parse(&pe, mk());
-    let ce = run_check(&pe, mk());
-    l.evals += 2;
-    if oe.panic.is_none() && ce.panic.is_none() {
-        if is_clean_accept(&oe) != r_plain.accepted || is_clean_accept(&ce) != r_plain.accepted {
-            bail!(
-                "C01/accept-emptyerr",
-                "with EmptyErr parse/check accept = {}/{} but the PEG reading = {}",
-                is_clean_accept(&oe),
-                is_clean_accept(&ce),
-                r_plain.accepted
-            );
-        }
-        if is_clean_accept(&oe) {
-            let rv = &r_plain.prefix.as_ref().unwrap().0;
-            if let Err(m) = cmp_val(rv, oe.out.as_ref().unwrap(), sm, base) {
-                bail!("C01/value-emptyerr", "output with EmptyErr differs: {}", m);
-            }
-        }
-    } else {
-        // panics with zero-sized errors are C20's business (known finding F8); counted here
-        l.bump("emptyerr_panics_left_to_C20");
-    }
-    // observed build: the consumed extent of every sub-parser on the successful path
-    let po = build::<I, chumsky::error::Rich<'s, I::Tok, I::Spn>>(g, true);
-    let oo = run_parse(&po, mk());
-    l.evals += 1;
-    if let Some(m) = &oo.panic {
-        bail!("C01/panic", "observed parse panicked: {}", m);
-    }
-    if is_clean_accept(&oo) != r_obs.accepted {
-        bail!("C01/accept-observed", "wrapping nodes in map_with changed acceptance: {} vs {}", is_clean_accept(&oo), r_obs.accepted);
-    }
-    if r_obs.accepted {
-        let rv = &r_obs.prefix.as_ref().unwrap().0;
-        let iv = oo.out.as_ref().unwrap();
-        if let Err(m) = cmp_val(rv, iv, sm, base) {
-            bail!("C01/extent", "consumed extent of a sub-parser differs from the PEG reading: {} (impl {:?}, reference {:?})", m, iv, rv);
-        }
-    }
-    Ok(())
-}
-
 pub fn check_case(case: &Case, l: &mut Local) -> Result<(), Fail> {
     check_inner(&case.sub, &case.g, &case.toks(), l).map_err(|(_, f)| f)
 }
 
 fn check_inner(sub: &str, g: &G, toks: &[char], l: &mut Local) -> CaseRes {
-    let r_plain = ref_plain(g, toks);
-    if r_plain.stats.fuel_out {
-        l.bump("skipped_fuel");
-        return Ok(());
-    }
-    let r_obs = ref_obs(g, toks);
-    let st = &r_plain.stats;
+    let kind = if sub.ends_with("slice") { "slice" } else { "str" };
+    let r = peg_diff(ID, sub, kind, g, toks, l)?;
+    let st = &r.stats;
     let nontrivial = st.partial_backtracks > 0 || st.semantic_rejects > 0;
-    l.bump(if r_plain.accepted { "accepted" } else { "rejected" });
+    l.bump(if r.accepted { "accepted" } else { "rejected" });
     if st.partial_backtracks > 0 {
         l.bump("with_partial_match_backtrack");
     }
@@ -140,48 +38,7 @@ fn check_inner(sub: &str, g: &G, toks: &[char], l: &mut Local) -> CaseRes {
     if toks.iter().any(|c| c.len_utf8() > 1) {
         l.bump("multi_byte_input");
     }
-    l.note(g, toks, sub, nontrivial, || {
-        format!("reference: accepted={} prefix={:?}", r_plain.accepted, r_plain.prefix.as_ref().map(|p| p.1))
-    });
-    match sub {
-        "slice" | "exh-slice" => {
-            let v: Vec<char> = toks.to_vec();
-            let sm = SpanMap::for_index(v.len(), std::mem::size_of::<char>());
-            let sl: &[char] = &v;
-            differential::<&[char]>(sub, g, toks, &|| sl, &sm, sl.as_ptr() as usize, &r_plain, &r_obs, l)?;
-        }
-        _ => {
-            let si = StrIn::new(toks);
-            let s: &str = &si.s;
-            differential::<&str>(sub, g, toks, &|| s, &si.sm, si.base(), &r_plain, &r_obs, l)?;
-            // how much a successful prefix match consumed, observed through g.then(rest)
-            let g2 = with_rest(g);
-            let r2 = ref_plain(&g2, toks);
-            let p2 = build::<&str, RichS>(&g2, false);
-            let o2 = run_parse(&p2, s);
-            l.evals += 1;
-            if let Some(m) = &o2.panic {
-                return fail(|| Case::new(ID, sub, g, toks), "C01/panic", format!("g.then(rest) panicked: {}", m));
-            }
-            if is_clean_accept(&o2) != r2.accepted {
-                return fail(
-                    || Case::new(ID, sub, g, toks),
-                    "C01/prefix-accept",
-                    format!("g.then(rest) accept={} but the PEG reading={} (errors {:?})", is_clean_accept(&o2), r2.accepted, o2.errs),
-                );
-            }
-            if r2.accepted {
-                let rv = &r2.prefix.as_ref().unwrap().0;
-                if let Err(m) = cmp_val(rv, o2.out.as_ref().unwrap(), &si.sm, si.base()) {
-                    return fail(
-                        || Case::new(ID, sub, g, toks),
-                        "C01/prefix-consumed",
-                        format!("a successful prefix match consumed a different amount: {} (impl {:?}, reference {:?})", m, o2.out, rv),
-                    );
-                }
-            }
-        }
-    }
+    l.note(g, toks, sub, nontrivial, || format!("reference: accepted={} prefix={:?}", r.accepted, r.prefix.as_ref().map(|p| p.1)));
     Ok(())
 }
 
